@@ -86,7 +86,7 @@ CHECKS = {
              "is spent, termination within the step bound; traversal functions executed symbolically on all DAGs with <=5 stages "
              "against a dominance oracle; ranking-function obligation discharged by z3; one step of the real JumpToStageHandler with symbolic "
              "_jump_count / _max_jumps over SymDB; shuffled delivery of the loops (quick: 4 symbolic choices). "
-             "Operator pause / unpause before every pair of steps of a loop (exploration only: DESIGN O10).",
+             "Operator pause / unpause before every pair of steps of a loop: the run ends finished, or paused in a state a resume can continue.",
         note="Bounds: <=5 stages, iterations <=13, 5 choice points of reordering (thorough). Stubs as C01.",
         design="3/C15",
     ),
